@@ -52,20 +52,22 @@ WHITELIST = frozenset([
 ])
 
 
-def split_parts(arg):
-    # Break in pieces at undoubled semicolons and
-    # change double semicolons to singles:
-    i = 0
-    while i < len(arg):
-        m = ENTITY_RE.search(arg[i:])
-        if m is None:
-            break
-        arg = arg[:i + m.end()] + ';' + arg[i + m.end():]
-        i += m.end()
+SPLIT_RE = re.compile(ENTITY_RE.pattern + r'|(;;)|(;)')
 
-    arg = arg.replace(";;", "\0")
-    parts = arg.split(';')
-    parts = [p.replace("\0", ";") for p in parts]
+
+def split_parts(arg):
+    # Break in pieces at undoubled semicolons and change double
+    # semicolons to singles; a semicolon that terminates a character
+    # entity is not a separator. Each piece is sliced from ``arg`` so
+    # that it keeps its source position.
+    parts = []
+    start = 0
+    for m in SPLIT_RE.finditer(arg):
+        if m.lastindex == SPLIT_RE.groups:
+            parts.append(arg[start:m.start()])
+            start = m.end()
+    parts.append(arg[start:])
+    parts = [p.replace(";;", ";") for p in parts]
     if len(parts) > 1 and not parts[-1].strip():
         del parts[-1]  # It ended in a semicolon
 
